@@ -402,6 +402,17 @@ class Executor:
                 if len(outs) == 1 and outs[0][1] == 'ret':
                     return outs[0][2]
                 raise Unsupported(f'promoted constant {txt} did not evaluate to a single value')
+        ms = re.match(r'^\{(alloc\d+): &', txt)
+        if ms and fn is not None:
+            sf = self.prog.static_fn(fn.crate, ms.group(1))
+            if sf is not None:
+                key = ('static', sf.name)
+                if key not in st.env:
+                    outs = list(self.run(sf, [], st, 0))
+                    if len(outs) != 1 or outs[0][1] != 'ret':
+                        raise Unsupported(f'static initialiser {sf.name} did not evaluate to a single value')
+                    st.env[key] = st.alloc(outs[0][2])
+                return Ref(st.env[key], (), False)
         m = re.match(r'^(-?\d+)_(\w+)$', txt)
         if m and m.group(2) in INT_TYPES:
             return Int(int(m.group(1)), m.group(2))
